@@ -246,6 +246,12 @@ Definition ctx_status (k : call) : cerr :=
 Definition ctx_raw (k : call) : cerr :=
   match k_ctx k with CtxDeadline => ERawDeadline | _ => ERawCanceled end.
 
+(* what the stream's Read reports when its registration is closed and its queue is empty: the stream context's own
+   error if it has ended (its teardown unregistered it; fix 72f38d7), else the recorded read error or "respChan
+   closed" *)
+Definition closed_err (s : state) (k : call) : cerr :=
+  if sctx_done k then ctx_status k else if rerr s then EConn else EClosed.
+
 (* close and drop every registered channel (closeError) *)
 Definition close_all (ks : list call) : list call :=
   map (fun k => if k_reg k then set_chan k (mkChan (cbuf (k_chan k)) true) false else k) ks.
@@ -426,8 +432,8 @@ Definition r_loop_read (c : nat) (s : state) : option state :=
                 end
           | None =>
               if cclosed (k_chan k) then
-                (* handler closed: the recorded read error or "respChan closed" *)
-                let err := if rerr s then EConn else EClosed in
+                (* handler closed *)
+                let err := closed_err s k in
                 Some (set_call s c (loop_exit (set_latch k (inr err)) (Some err) false None false))
               else None
           end
